@@ -214,11 +214,9 @@ func (x Expr) GetNodes(n gen.Node) (results []gen.Node) {
 							if i < 0 {
 								i = len(tv) + i
 							}
-							var v gen.Node
 							if 0 <= i && i < len(tv) {
-								v = tv[i]
+								results = append(results, tv[i])
 							}
-							results = append(results, v)
 						}
 					}
 				}
@@ -494,7 +492,13 @@ func (x Expr) FirstNode(n gen.Node) (result gen.Node) {
 			}
 			stack = append(stack, prev)
 		case Union:
-			for ui := len(tf) - 1; 0 <= ui; ui-- {
+			for k := range tf {
+				// Push in reverse order so the first is evaluated first unless
+				// this is the last fragment, then the first found is the result.
+				ui := len(tf) - 1 - k
+				if fi == index(len(x))-1 {
+					ui = k
+				}
 				u := tf[ui]
 				switch tu := u.(type) {
 				case string:
@@ -517,13 +521,13 @@ func (x Expr) FirstNode(n gen.Node) (result gen.Node) {
 						}
 						if 0 <= i && i < len(tv) {
 							v = tv[i]
-						}
-						if fi == index(len(x))-1 { // last one
-							return v
-						}
-						switch v.(type) {
-						case gen.Object, gen.Array:
-							stack = append(stack, v)
+							if fi == index(len(x))-1 { // last one
+								return v
+							}
+							switch v.(type) {
+							case gen.Object, gen.Array:
+								stack = append(stack, v)
+							}
 						}
 					}
 				}
